@@ -259,6 +259,70 @@ mut("neutral-output-file-ends-with-newline", CLI, "                f.write(outpu
 mut("neutral-optional-fields-sorted-by-name", ST, "    return required + required_2, optional", "    return required + required_2, sorted(optional)", ["C04", "C12", "C03", "C06", "C18"], kind="neutral")
 
 
+mut("neutral-sqlmodel-comment-wording", "json_to_models/models/sqlmodel.py", "# Warn! This generated code does not respect SQLModel Relationship and foreign_key, please add them manually.",
+    "# NOTE: relationships and foreign keys are not generated; add them by hand.", ["C19", "C03", "C04"], kind="neutral")
+mut("neutral-model-name-joiner", MM, '    WORDS_SEPARATOR = "_"', '    WORDS_SEPARATOR = "And"', ["C03", "C04", "C11", "C12", "C05", "C01"], kind="neutral")
+
+
+mut("neutral-merge-closure-by-union-find", R, """        groups: Iterable[Set[ModelMeta]] = [{model, *models} for model, models in models2merge.items()]
+        # Make groups non-overlapping.
+        # This is not optimal algorithm but it works and we probably will not have thousands of models here.
+        flag = True
+        while flag:
+            flag = False
+            new_groups: OrderedSet[FrozenSet[ModelMeta]] = OrderedSet()
+            for gr1 in groups:
+                in_set = False
+                for gr2 in groups:
+                    if gr1 is gr2:
+                        continue
+                    if gr1 & gr2:
+                        in_set = True
+                        old_len = len(new_groups)
+                        new_groups.add(frozenset(gr1 | gr2))
+                        added = old_len < len(new_groups)
+                        flag = flag or added
+                if not in_set:
+                    new_groups.add(gr1)
+            if flag:
+                groups: OrderedSet[FrozenSet[ModelMeta]] = new_groups
+""", """        leader = {}
+
+        def find(x):
+            while leader.setdefault(x, x) is not x:
+                leader[x] = leader[leader[x]]
+                x = leader[x]
+            return x
+
+        for model, models in models2merge.items():
+            for other in models:
+                leader[find(model)] = find(other)
+        components = {}
+        for model in models2merge:
+            components.setdefault(find(model), set()).add(model)
+        groups = list(components.values())
+""", ["C05", "C01", "C07", "C06"], kind="neutral")
+mut("neutral-context-via-contextvars", MM, """        class _Data(threading.local):
+            # Class attribute is the default for threads other than the one that imported this module
+            context: ContextInjectionType = None
+
+        data = _Data()
+""", """        class _Data:
+            import contextvars as _cv
+            _var = _cv.ContextVar("j2m_abs_ref_context", default=None)
+
+            @property
+            def context(self):
+                return self._var.get()
+
+            @context.setter
+            def context(self, value):
+                self._var.set(value)
+
+        data = _Data()
+""", ["C15", "C14", "C03"], kind="neutral")
+
+
 def apply(m, root):
     p = os.path.join(root, m["file"])
     s = open(p).read()
